@@ -23,7 +23,7 @@ ASSUMPTIONS = [
     "bounds: <=10 targets, <=14 files",
 ]
 BUDGET = {
-    "quick": {"examples": 1200, "wall_s": 90, "shards": 4},
+    "quick": {"examples": 700, "wall_s": 90, "shards": 4},
     "thorough": {"examples": 10000, "wall_s": 900, "shards": 16},
 }
 
@@ -35,6 +35,49 @@ def strategy(tier):
     big = tier == "thorough"
     return gen.wellformed(max_targets=10 if big else 6, max_files=14 if big else 9, wds=WDS, dirs=DIRS, nb=3,
                           spellings=(0, 1, 2, 3, 4, 5, 6), min_targets=2).map(lambda d: {"desc": d})
+
+
+def info_tier(desc, R):
+    """`gwf info` (JSON) must report the same dependencies/dependents."""
+    import json
+
+    from vlib import project
+
+    viols = []
+    with project.Project(desc, backend="slurm") as proj:
+        proj.set_files({p: (t if t is not None else None) for p, t in desc["files"].items()})
+        r = proj.gwf(["info"])
+        if r.code != 0 or r.crashed:
+            return [Violation({"kind": "info-failed", "exc": type(r.exc).__name__ if r.exc else None}, r.brief())]
+        try:
+            data = json.loads(r.out)
+        except ValueError as exc:
+            return [Violation({"kind": "info-not-json"}, f"{exc}: {r.out[:200]!r}")]
+        if set(data) != set(R.by_name):
+            viols.append(Violation({"kind": "info-targets"}, f"info lists {sorted(data)}, workflow has {sorted(R.by_name)}"))
+        for n, d in data.items():
+            if n not in R.by_name:
+                continue
+            if set(d.get("dependencies", [])) != R.deps[n] or len(d.get("dependencies", [])) != len(R.deps[n]):
+                viols.append(Violation({"kind": "info-dependencies"},
+                                       f"info {n}: dependencies {d.get('dependencies')} != {sorted(R.deps[n])}"))
+            if set(d.get("dependents", [])) != R.dependents[n] or len(d.get("dependents", [])) != len(R.dependents[n]):
+                viols.append(Violation({"kind": "info-dependents"},
+                                       f"info {n}: dependents {d.get('dependents')} != {sorted(R.dependents[n])}"))
+        # a single named target reports the same relations
+        first = sorted(R.by_name)[0]
+        r1 = proj.gwf(["info", first])
+        if r1.code == 0 and not r1.crashed:
+            try:
+                d1 = json.loads(r1.out)
+                if set(d1) != {first} or set(d1[first]["dependents"]) != R.dependents[first] \
+                        or set(d1[first]["dependencies"]) != R.deps[first]:
+                    viols.append(Violation({"kind": "info-single"}, f"info {first}: {d1}"))
+            except (ValueError, KeyError) as exc:
+                viols.append(Violation({"kind": "info-single-bad"}, str(exc)))
+        else:
+            viols.append(Violation({"kind": "info-single-failed"}, r1.brief()))
+    return viols
 
 
 def run_case(case):
@@ -69,6 +112,8 @@ def run_case(case):
     ends = names(graph.endpoints())
     if ends != R.endpoints():
         viols.append(Violation({"kind": "endpoints"}, f"endpoints {sorted(ends)} != {sorted(R.endpoints())}"))
+
+    viols += info_tier(desc, R)
 
     # non-triviality: alias spellings / homonyms
     occ = []  # (text, resolved)
